@@ -737,7 +737,7 @@ pub fn run_scenario(sc: &Value, t: &mut Tracer) {
 				// the stretch up to the next yield point has already run (see ABegin / APushUnused);
 				// report where the thread stopped when that stretch ends here in the model
 				let ends_stretch = step["lock"].as_bool() == Some(false);
-				if ends_stretch {
+				if ends_stretch && s.audio_started {
 					s.a_pending = false;
 					let st = s.aw.wait();
 					log_audio_status(&mut s, t, &st)
@@ -746,15 +746,24 @@ pub fn run_scenario(sc: &Value, t: &mut Tracer) {
 					true
 				}
 			}
+			// (the real callback may already be over when the model still has steps of it to go - a library that does less per
+			//  callback than the model: those steps have no counterpart, nothing is reported twice)
 			"APushUnused" => {
-				s.aw.ctl.resume();
-				s.a_pending = true;
+				if s.audio_started {
+					s.aw.ctl.resume();
+					s.a_pending = true;
+				}
 				t.ev(json!({"a": "tau"}));
 				true
 			}
 			"ARefill" => {
-				let st = s.aw.resume();
-				log_audio_status(&mut s, t, &st)
+				if s.audio_started {
+					let st = s.aw.resume();
+					log_audio_status(&mut s, t, &st)
+				} else {
+					t.ev(json!({"a": "tau"}));
+					true
+				}
 			}
 			other => panic!("unknown act {other}"),
 		};
